@@ -57,6 +57,14 @@ structure EnumRules where
   notIn : List String := []
   deriving DecidableEq, Repr, Inhabited
 
+/-- `schema.DateField.Rules` / `schema.DecimalField.Rules`: bounds as text -/
+structure TextBoundRules where
+  minimum : Option String := none
+  maximum : Option String := none
+  exclusiveMinimum : Option Bool := none
+  exclusiveMaximum : Option Bool := none
+  deriving DecidableEq, Repr, Inhabited
+
 structure ArrayRules where
   minItems : Option Nat := none
   maxItems : Option Nat := none
@@ -106,8 +114,8 @@ inductive Schema where
   | object (ref : String) (flatten : Bool) (hasRules : Bool)
   | oneof (ref : String) (hasRules : Bool) (lr : ListRules)
   | timestamp (hasRules : Bool) (lr : ListRules)
-  | date (lr : ListRules)
-  | decimal (lr : ListRules)
+  | date (rules : Option TextBoundRules) (lr : ListRules)
+  | decimal (rules : Option TextBoundRules) (lr : ListRules)
   | any (onlyDefined : Bool) (types : List String) (lr : ListRules)
   deriving DecidableEq, Repr, Inhabited
 
@@ -136,7 +144,7 @@ structure Property where
 
 /-- message-typed kinds (fields with presence, no scalar zero value) -/
 def Schema.isMessage : Schema → Bool
-  | .object _ _ _ | .oneof _ _ _ | .timestamp _ _ | .date _ | .decimal _ | .any _ _ _ => true
+  | .object _ _ _ | .oneof _ _ _ | .timestamp _ _ | .date _ _ | .decimal _ _ | .any _ _ _ => true
   | _ => false
 
 /-! ## protovalidate side: the subset of `buf.validate.FieldConstraints` the compiler emits -/
@@ -238,6 +246,8 @@ inductive J5Ext where
   | key (pattern : Option String)
   | array (singleForm : Option String)
   | any (onlyDefined : Bool) (types : List String)
+  | date (rules : TextBoundRules)
+  | decimal (rules : TextBoundRules)
   deriving DecidableEq, Repr, Inhabited
 
 inductive FkSlot where
